@@ -399,7 +399,46 @@ def r14h(F):
 		out.append(Result('14.h', False, 'floor:blinded-tail-builders', 'only %d TailDetails::Blinded constructions in the payload builders (expected 2)' % n, n))
 	return out
 
+def r14i(F):
+	"""failure messages carrying a channel_update: [code:2][debug field:n][len:2][update:len]. The sender reads the update length right behind
+	the code-specific debug field (offset debug_field_size + 2) and the update right behind the length; both offsets follow the failure code"""
+	out = []
+	fn = OU + 'process_onion_failure_inner'
+	fu = F.func(fn)
+	ex = Expr(fu)
+	ranges = []
+	for bi, si, st in fu.stmts():
+		rv = st[2]
+		if rv[0] == 'agg' and rv[1] == 'adt' and norm(rv[2]).endswith('ops::range::Range') and bi in fu.reach([0]) and len(rv[4]) == 2:
+			a, b = linear(ex.of_operand(rv[4][0])), linear(ex.of_operand(rv[4][1]))
+			ranges.append((st[0], a, b))
+	def dfs_terms(t):
+		return [v for v, c in t.items() if 'get_onion_debug_field' in v and c == 1]
+	lens = [r for r in ranges if r[1][0] == r[2][0] and r[2][1] - r[1][1] == 2 and r[1][1] >= 2]
+	if len(lens) != 1:
+		return [Result('14.i', False, 'anchor:update-length-range', 'process_onion_failure_inner: expected one two-byte range behind the failure code (the channel_update length), found %d of %d ranges' % (len(lens), len(ranges)), len(ranges), where=F.where(fn))]
+	line, a, b = lens[0]
+	ok = len(a[0]) == 1 and bool(dfs_terms(a[0])) and a[1] == 2
+	out.append(Result('14.i', ok, ('ok:' if ok else 'offset:') + 'update-length-behind-debug-field', 'the channel_update length is read at failuremsg[debug_field_size + 2 .. debug_field_size + 4] (found start %s%+d)%s' % ('debug_field_size' if dfs_terms(a[0]) else sorted(a[0]) or '', a[1], '' if ok else ' - read at a fixed offset the upper bytes of the reported amount / expiry are taken for the length: the failure is classed as bogus and the wrong node is blamed permanently'), len(ranges), where=F.where(fn, line)))
+	body = [r for r in ranges if r[1] == b and r is not lens[0]]
+	okb = len(body) == 1 and len(body[0][2][0]) == len(b[0]) + 1 and body[0][2][1] == b[1]
+	out.append(Result('14.i', okb, ('ok:' if okb else 'offset:') + 'update-body-behind-length', 'the channel_update body range starts where the length field ends and is `length` bytes long (%d candidate range(s))' % len(body), len(body), where=F.where(fn)))
+	return out
+
+def r14j(F):
+	"""a failure held across a restart keeps what the sender needs to attribute it: the persisted form of HTLCFailReason writes the error packet
+	data and the attribution data whenever the variant has them (same structural rule as 12.k, restricted to HTLCFailReasonRepr)"""
+	import C12
+	out = [r for r in C12.r12k(F) if 'HTLCFailReasonRepr' in r.key]
+	for r in out:
+		r.rule = '14.j'
+	if len(out) < 4:
+		out.append(Result('14.j', False, 'anchor:fail-reason-getters', 'the getter closures of the HTLCFailReasonRepr writer were not found (%d)' % len(out), len(out)))
+	return out
+
 RULES = [
+	('14.j', 'persisted failures keep their attribution data (writer getters of HTLCFailReasonRepr select on the variant only)', r14j),
+	('14.i', 'failure parsing: the channel_update length / body offsets follow the code-specific debug field', r14i),
 	('14.h', 'dummy-hop peeling forwards the peeled layer amount / expiry; both payload builders take the blinded tail values from the BlindedTail', r14h),
 	('14.a', 'decode_next_hop: nothing is decrypted / parsed / returned before the HMAC (over hop data and payment hash) matches', r14a),
 	('14.d', 'final iff the next HMAC is zero; forward returns the shifted same-size packet; payload kind matches packet kind', r14d),
